@@ -18,7 +18,7 @@ import (
 // (last) make the end of the run observable without sleeping: results are delivered in order,
 // so once the sentinel's window arrives every earlier window has been delivered.
 // Observables (at the closing `flush` op): one line per result row in delivery order,
-//   res <window_start ns> <window_end ns> <key hex> <count(*)> <sum(id)> <window_id ok t|f> <ids in collect() order…>
+//   res <window_start ns> <window_end ns> <key hex> <count(*)> <sum(id)> <window_id ok t|f> b<batch number> <ids in collect() order…>
 // The driver evaluates the declarative oracle on them (no model trace is compared here: which
 // late rows are still accepted depends on the free-running schedule; the oracle allows both).
 
@@ -48,6 +48,7 @@ func execSQLWindowOnce(c Case) ([][]string, bool) {
 	}
 	var mu sync.Mutex
 	var lines [][]string
+	batchNo := 0
 	sentinel := ""
 	// the sentinel sits on a slide-aligned instant: it is delivered once per covering window,
 	// ceil(size/slide) times for a sliding window; the run is complete after the last of them
@@ -62,13 +63,14 @@ func execSQLWindowOnce(c Case) ([][]string, bool) {
 		sort.SliceStable(rows, func(i, j int) bool { return fmt.Sprint(rows[i]["k"]) < fmt.Sprint(rows[j]["k"]) })
 		mu.Lock()
 		defer mu.Unlock()
+		batchNo++ // one sink call = one delivered batch (all groups of one window firing)
 		for _, r := range rows {
 			ws, _ := toI64(r["ws"])
 			we, _ := toI64(r["we"])
 			cnt, _ := toI64(r["c"])
 			sum, _ := toI64(r["s"])
 			line := []string{"res", itoa(ws), itoa(we), hx(fmt.Sprint(r["k"])), itoa(cnt), itoa(sum),
-				btok(fmt.Sprint(r["window_id"]) == fmt.Sprintf("%d_%d", ws, we))}
+				btok(fmt.Sprint(r["window_id"]) == fmt.Sprintf("%d_%d", ws, we)), "b" + strconv.Itoa(batchNo)}
 			if ids, ok := r["ids"].([]interface{}); ok {
 				for _, x := range ids {
 					id := fmt.Sprint(x)
